@@ -254,6 +254,76 @@ def preimage_real_transforms(verdict, tier, seed):
     return n_eval
 
 
+def pool_context_target(verdict, tier, seed):
+    """samplers created inside Aspire.enable_pool (with and without parallelize_prior) are handed the
+    same tempered target as outside: the kernel's log_prob is compared with the reference"""
+    import smcdrv
+    from aspire import Aspire
+
+    class FakePool:
+        def map(self, fn, it):
+            return list(map(fn, it))
+
+        def close(self):
+            pass
+
+        def join(self):
+            pass
+    n_eval = 0
+    xp = smcdrv.get_xp("numpy")
+
+    def q_np(x):
+        return -0.5 * ((x - 0.3) ** 2).sum(-1) - 1.1
+
+    def l_np(x):
+        return -0.5 * (((x - 0.7) / 0.8) ** 2).sum(-1)
+
+    def p_np(x):
+        return np.where((np.abs(x) < 3).all(-1), -0.125 * (x ** 2).sum(-1) - 0.2, -np.inf)
+
+    class F:
+        def log_prob(self, x):
+            return xp.asarray(q_np(np.asarray(smcdrv.to_np(x), dtype=np.float64)))
+
+        def sample_and_log_prob(self, n):
+            raise NotImplementedError
+
+    def ll(s, map_fn=map):
+        return s.xp.asarray(l_np(np.asarray(smcdrv.to_np(s.x), dtype=np.float64)))
+
+    def lp(s, map_fn=map):
+        return s.xp.asarray(p_np(np.asarray(smcdrv.to_np(s.x), dtype=np.float64)))
+    rng = np.random.default_rng(seed + 2)
+    z = np.concatenate([rng.normal(0.5, 1.0, size=(12, 2)), np.array([[4.0, 0.0], [0.0, -5.0]])])   # two zero-prior points
+    for stype, beta in (("smc", 0.25), ("smc", 1.0), ("emcee_smc", 0.5), ("minipcn", None), ("emcee", None)):
+        for pp in (False, True):
+            for where in ("inside", "after"):
+                a = Aspire(log_likelihood=ll, log_prior=lp, dims=2, parameters=["a", "b"], flow=F(), xp=xp, dtype="float64")
+                scen = {"builder": "pool_target", "params": {"sampler": stype, "parallelize_prior": pp, "where": where}}
+                try:
+                    with a.enable_pool(FakePool(), close_pool=False, parallelize_prior=pp):
+                        if where == "inside":
+                            smp = a.init_sampler(stype, preconditioning="none")
+                    if where == "after":
+                        smp = a.init_sampler(stype, preconditioning="none")
+                    out = smp.log_prob(xp.asarray(z), beta) if beta is not None else smp.log_prob(xp.asarray(z))
+                except Exception as ex:
+                    verdict.violation(f"NeverRaises|pool-target|{stype}|{type(ex).__name__}", f"{stype} created {where} enable_pool(parallelize_prior={pp}): {type(ex).__name__}: {str(ex)[:120]}", scen)
+                    continue
+                n_eval += len(z)
+                o = np.asarray(smcdrv.to_np(out), dtype=np.float64).reshape(-1)
+                b = 1.0 if beta is None else beta
+                with np.errstate(invalid="ignore"):
+                    exp = ((1 - b) * q_np(z) if beta is not None else 0.0) + b * (l_np(z) + p_np(z))
+                ok = np.where(np.isneginf(exp), np.isneginf(o), np.abs(o - exp) <= 1e-10 * (1 + np.abs(exp)))
+                if o.shape != exp.shape or not np.all(ok):
+                    k = int(np.argmin(ok))
+                    clause = "ZeroPriorMinusInf" if np.isneginf(exp[k]) else "TargetDef"
+                    verdict.violation(f"{clause}|pool|{stype}|parallelize_prior={pp}|{where}",
+                                      f"{stype} sampler created {where} enable_pool(parallelize_prior={pp}): kernel target {o[k]!r}, specification {exp[k]!r}", scen)
+    return n_eval
+
+
 def main(prop, tier, seed, replay_path=None):
     t0 = time.time()
     verdict = Verdict(prop)
@@ -270,6 +340,7 @@ def main(prop, tier, seed, replay_path=None):
     for (cls, ns, dt) in combos:
         n_eval += eval_cases(verdict, cases, cls, ns, dt)
     n_pre = preimage_real_transforms(verdict, tier, seed)
+    n_pre += pool_context_target(verdict, tier, seed)
     import e3_dispatch
     disp = e3_dispatch.replay(verdict, tier, seed) if not replay_path else {}
     # binding self-test: a wrong expectation must be noticed
